@@ -203,4 +203,32 @@ theorem C02_ilog_is_the_source (v : Nat) (fuel : Nat) (hf : ilogNat v < fuel) :
     (ov_ilog.run (v : Int) fuel).val? = some (ilogNat v : Int) :=
   IL.run_eq v fuel hf
 
+open Vorbis.CSem Vorbis.Generated.Funcs Vorbis.Proofs.Funcs in
+/-- **C02_quantvals_terminates_correct** — the lattice search `_book_maptype1_quantvals`, as it stands in
+lib/sharedbook.c (regenerated on every run), returns for every value-mapped book the parser accepts
+(`dim ≥ 1` by C02_valuebook_has_dim, `1 ≤ entries < 2^24`) and for EVERY result `guess` of the
+single-precision `floor(pow(entries,1/dim))` it starts from — the float library's rounding is irrelevant —
+within `entries + max guess 1 + dim + 3` loop rounds, and what it returns is the `r ≥ 1` with
+`r^dim ≤ entries < (r+1)^dim` (the number of quantised values the header must carry). The `LONG_MAX`
+guards keep both accumulators inside a C `long`: `acc ≤ entries`, `acc1 = min((vals+1)^i, LONG_MAX)`
+(`Proofs/Lookup1.acc_spec`). With `dim = 0` the same function never returns (C02_lookup1_dim0_diverges, finding F1). -/
+theorem C02_quantvals_terminates_correct (entries guess : Int) (dim : Nat) (hd : 1 ≤ dim) (he : 1 ≤ entries)
+    (hmax : entries < 9223372036854775807) (fuel : Nat)
+    (hf : (entries + (if guess < 1 then 1 else guess)).toNat + dim + 2 < fuel) :
+    ∃ r, 1 ≤ r ∧ (book_maptype1_quantvals.run entries guess (dim : Int) fuel).val? = some r ∧
+      r ^ dim ≤ entries ∧ entries < (r + 1) ^ dim :=
+  QV.run_correct entries guess dim hd he hmax fuel hf
+
+open Vorbis.CSem Vorbis.Generated.Funcs in
+/-- non-vacuity: 625 entries in 4 dimensions from the guesses 1, 5 and 40: five values per dimension -/
+example : ((book_maptype1_quantvals.run 625 1 4 700).val?, (book_maptype1_quantvals.run 625 5 4 700).val?,
+           (book_maptype1_quantvals.run 625 40 4 700).val?) = (some 5, some 5, some 5) := by decide
+
+/-- **C02_quantvals_unique** — that answer is the only one: two values satisfying the bracket are equal, so the
+library and the model agree on `quantvals` whatever each one's search started from. -/
+theorem C02_quantvals_unique (entries : Int) (dim : Nat) (hd : 1 ≤ dim) (r1 r2 : Int) (h1 : 1 ≤ r1) (h2 : 1 ≤ r2)
+    (a1 : r1 ^ dim ≤ entries) (b1 : entries < (r1 + 1) ^ dim) (a2 : r2 ^ dim ≤ entries) (b2 : entries < (r2 + 1) ^ dim) :
+    r1 = r2 :=
+  Vorbis.Proofs.Lookup1.search_unique entries dim hd r1 r2 h1 h2 a1 b1 a2 b2
+
 end Vorbis.Props.C02
